@@ -329,6 +329,8 @@ func checkCmd(w *world, prop, tier string, seed int, opts *runOpts, expectMode b
 	if msg := verifyGlobals(w, cons); msg != "" {
 		notGen = append(notGen, msg)
 	}
+	// fields declared immutable are never assigned after construction (whole repository, syntactic)
+	notGen = append(notGen, w.immutableViolations()...)
 	// expected-obligation guard
 	// (only postcondition-like obligations are guarded, and only for presence: call-site obligations and path
 	// counts legitimately change under harmless refactors)
@@ -377,6 +379,9 @@ func checkCmd(w *world, prop, tier string, seed int, opts *runOpts, expectMode b
 	var samples []any
 	var lines []string
 	rpDir := filepath.Join(w.verifDir, "replays", prop)
+	if d := os.Getenv("VERIF_REPLAY_DIR"); d != "" {
+		rpDir = filepath.Join(d, prop) // parallel seeded-change runs keep their replay files apart
+	}
 	_ = os.RemoveAll(rpDir)
 	for _, o := range all {
 		if o.Bounded {
